@@ -117,8 +117,17 @@ class ReplaceLoop:
             if not isinstance(a, ast.Name):
                 raise AnalysisError("ReplaceLoop: extend's fragment argument is not a local name")
             frs.add(a.id)
+        self.raw_fragment_calls = []
         if len(frs) != 1:
-            raise AnalysisError("ReplaceLoop: several fragment variables %s" % sorted(frs))
+            raw = {x for x in frs if x in fn.params}
+            local = frs - raw
+            if len(local) == 1 and raw:
+                # one branch inserts the caller's pattern ITSELF (a parameter) instead of the per-match copy: judged by A3
+                self.raw_fragment_calls = [c for c in ext if isinstance(get_arg(c, ["other", "offsets", "structure_index_map", "verbose"], "other"), ast.Name)
+                                           and get_arg(c, ["other", "offsets", "structure_index_map", "verbose"], "other").id in raw]
+                frs = local
+            else:
+                raise AnalysisError("ReplaceLoop: several fragment variables %s" % sorted(frs))
         self.fragment = frs.pop()
         # the find call and its three results
         fc = calls_named(fn, "find_pattern_in_structure")
@@ -148,6 +157,10 @@ def A3_fragment_typestate(repo, clause):
     RL = ReplaceLoop(repo)
     fn, F, S = RL.fn, RL.fragment, RL.result
     obs = []
+    for c_ in RL.raw_fragment_calls:
+        obs.append(Ob("A3", clause, fn, c_, False,
+                      "`%s` inserts the caller's replacement pattern ITSELF, not the per-match copy `%s` that was rotated, translated to the match and wrapped: the atoms land in the pattern's own frame" % (ast.unparse(c_)[:60], F),
+                      slot="consume-raw-pattern", positive=True))
 
     def events(node):
         ev = []
@@ -469,7 +482,9 @@ def A5_overlap_guard(repo, clause):
         rel = [g for g in gs if any(isinstance(x, ast.Name) and x.id == D for x in ast.walk(g[0])) or
                (isinstance(g[0], ast.Name) and g[0].id in flag_params) or any(isinstance(x, ast.Name) and x.id in flag_params and x.id.startswith("ignore") for x in ast.walk(g[0]))]
         table, flags = truth_table(rel, L)
-        ok = table is not None and rel != [] and (table == want_update or table == want_update_noflag)
+        has_ignore_flag = any(x.startswith("ignore") for x in fn.params)
+        ok = table is not None and rel != [] and (table == want_update or (table == want_update_noflag and not has_ignore_flag))
+        flag_dropped = table is not None and rel != [] and table == want_update_noflag and has_ignore_flag
         if table is None:
             detail = "update of %s is guarded by %s, which is not a test of disjointness between %s and the set that is added (%s)" % (
                 D, [ast.unparse(t) for t, p, k in rel] or "nothing", D, ast.unparse(L))
@@ -478,7 +493,9 @@ def A5_overlap_guard(repo, clause):
         else:
             detail = "update executes exactly when (%s is disjoint from the set that is added) OR the ignore flag is set: %s (guards: %s)" % (
                 D, ok, [("" if p else "not ") + ast.unparse(t)[:70] for t, p, k in rel])
-        obs.append(Ob("A5", clause, fn, u, ok, detail, slot="guarded-update"))
+            if flag_dropped:
+                detail += " -- the function HAS an ignore flag, but with the flag set an overlapping match does not schedule its own atoms for deletion: the replacement is inserted on top of atoms that stay in the structure"
+        obs.append(Ob("A5", clause, fn, u, ok, detail, slot="guarded-update", positive=flag_dropped))
         # this match's deletion set = set(match) - set(retained.values())
         Le = expand(fn, L)
         if isinstance(Le, ast.Call) and call_name(Le) == "set" and len(Le.args) == 1:
@@ -496,6 +513,17 @@ def A5_overlap_guard(repo, clause):
                     shape_ok = True
                     detail += " = matched atoms minus the atoms retained through %s" % retained
         obs.append(Ob("A5", clause, fn, u, shape_ok, detail, slot="deletion-set-shape"))
+        # the retained-atom map of a match is the full unchanged-pairs map: filtering it by what earlier matches removed turns a retained atom into a "removed" one
+        if retained is not None:
+            for d_ in fn.own_nodes():
+                if isinstance(d_, ast.Assign) and isinstance(d_.value, ast.DictComp) and any(isinstance(t_, ast.Name) and t_.id == retained for t_ in d_.targets):
+                    ifs_ = [c_ for g_ in d_.value.generators for c_ in g_.ifs]
+                    bad_ = [c_ for c_ in ifs_ if any(isinstance(y, ast.Name) and y.id == D for y in ast.walk(c_))]
+                    obs.append(Ob("A5", clause, fn, d_, not ifs_,
+                                  "retained-atom map `%s` %s" % (retained, "maps every unchanged pattern atom of the match" if not ifs_ else (
+                                      "is FILTERED by the running deletion set (`%s`): an atom retained by this match but removed by an earlier one is then counted as removed by this match as well, and the overlap error fires although nothing is removed twice" % ast.unparse(bad_[0])[:60]
+                                      if bad_ else "is filtered by `%s`" % ast.unparse(ifs_[0])[:50])),
+                                  slot="retained-map-unfiltered", positive=bool(bad_), undecided=bool(ifs_) and not bad_))
         if retained is not None:
             obs.extend(_A5_same_map(fn, RL, retained, u, clause))
     # the refusal: raised exactly when the update would not happen, and it cannot reach a normal return
@@ -706,6 +734,23 @@ def A6_rotation_gate(repo, clause):
                 tol_detail = "comparison `%s`: deviation has length dimension %s, tolerance side has %s (must agree), upper bound=%s" % (ast.unparse(x)[:70], do, dt, upper)
                 tol_positive = dt is not None and do is not None and dt != do
     obs.append(Ob("A6", clause, fn, gate, tol_ok, "rotation re-check uses the caller's absolute tolerance: %s" % tol_detail, slot="gate-tolerance", positive=tol_positive))
+    # the tolerance bounds EVERY coordinate deviation: an aggregate over the atoms (norm / mean / sum of the whole difference, possibly divided by the atom count)
+    # lets one atom deviate by up to sqrt(n) or n times the tolerance; differences of consecutive atoms let errors accumulate along the pattern
+    if not closeness_calls:
+        agg = [x for x in ast.walk(ge) if isinstance(x, ast.Call) and call_name(x) in ("norm", "mean", "average", "sum", "std", "median")
+               and not kwarg(x, "axis") and any(isinstance(y, ast.BinOp) and isinstance(y.op, ast.Sub) for a_ in x.args for y in ast.walk(a_))]
+        reduced_by_max = any(isinstance(x, ast.Call) and call_name(x) in ("max", "amax", "all") for x in ast.walk(ge))
+        if agg and not reduced_by_max:
+            obs.append(Ob("A6", clause, fn, gate, False,
+                          "the re-check bounds an AGGREGATE of all deviations (`%s`), not each deviation: a single atom may be off by far more than the tolerance (up to sqrt(n) x atol for an RMS) and a mirror image of a large, nearly flat pattern passes" % ast.unparse(agg[0])[:70],
+                          slot="gate-elementwise", positive=True))
+    else:
+        cc = closeness_calls[0]
+        diffs = [a_ for a_ in cc.args[:2] if isinstance(a_, ast.Call) and call_name(a_) in ("diff", "ediff1d", "gradient")]
+        if len(diffs) == 2:
+            obs.append(Ob("A6", clause, fn, gate, False,
+                          "the re-check compares DIFFERENCES of consecutive atoms (`%s`), not positions: each step may be off by the tolerance, so the error accumulates along the pattern and a bowed chain passes" % ast.unparse(cc)[:70],
+                          slot="gate-elementwise", positive=True))
     # G is local to one group (initialised inside the group loop, outside the candidate loop)
     ginit = [n for n in fn.own_nodes() if isinstance(n, ast.Assign) and any(isinstance(t, ast.Name) and t.id == G for t in n.targets)]
     ok = bool(ginit) and all(group_loop in list(fn.ancestors(n)) and cand_loop not in list(fn.ancestors(n)) for n in ginit)
